@@ -2518,6 +2518,40 @@ impl World {
         }
         let client = self.parties[p].client.clone();
         let now = self.now();
+        if self.cfg.oracle("joiner") {
+            // C07: Client::validate_group_info accepts the GroupInfo under the identity of the member that signed it
+            // and under no other member's identity
+            let signer = self.parties[src].mems[g].group.as_ref().and_then(|x| x.current_member_signing_identity().ok().cloned());
+            let other = self
+                .live_members(g)
+                .into_iter()
+                .filter(|q| *q != src)
+                .filter_map(|q| self.parties[q].mems[g].group.as_ref().and_then(|x| x.current_member_signing_identity().ok().cloned()))
+                .find(|i| Some(i) != signer.as_ref());
+            if let Some(signer) = signer {
+                let r = guarded(&prop, "validate_group_info", || client.validate_group_info(&MlsMessage::from_bytes(&gi_bytes)?, &signer))?;
+                self.stats.check("group-info-validates-under-its-signer-only");
+                if let Err(e) = r {
+                    return Err(Violation::new(
+                        &prop,
+                        "joiner-state",
+                        format!("genuine-group-info-refused:{}", err_class(&e)),
+                        format!("P{p}: validate_group_info refuses the GroupInfo P{src} made for epoch {latest} under P{src}'s own signing identity: {e:?}"),
+                    ));
+                }
+                if let Some(other) = other {
+                    let r = guarded(&prop, "validate_group_info(other signer)", || client.validate_group_info(&MlsMessage::from_bytes(&gi_bytes)?, &other))?;
+                    if r.is_ok() {
+                        return Err(Violation::new(
+                            &prop,
+                            "joiner-state",
+                            "group-info-validates-under-another-identity".into(),
+                            format!("P{p}: validate_group_info accepts the GroupInfo P{src} signed under the signing identity of another member"),
+                        ));
+                    }
+                }
+            }
+        }
         crypto::rec_set_phase(self.step_no as u64);
         let r = crate::oracles::lib_call(self, p, Some(g), "external_commit", |_w| guarded(&prop, "external_commit", || {
             let mut b = client.external_commit_builder()?.commit_time(now);
